@@ -160,7 +160,7 @@ pub fn gen_boundary_value(r: &mut Rng, cfg: &GenCfg) -> MVal {
         }
     };
     // the 65,536-element kinds cost milliseconds per call: one boundary value in six
-    let kind = if r.chance(1, 6) { *r.pick(&[4u64, 6, 7]) } else { *r.pick(&[0u64, 1, 2, 3, 5, 8]) };
+    let kind = if r.chance(1, 6) { *r.pick(&[4u64, 6, 7]) } else { *r.pick(&[0u64, 1, 2, 3, 5, 8, 9]) };
     match kind {
         7 => {
             // an object with 65,535 / 65,536 / 65,537 members
@@ -175,6 +175,11 @@ pub fn gen_boundary_value(r: &mut Rng, cfg: &GenCfg) -> MVal {
             m.insert("a".to_string(), small(r));
             m.insert("z".to_string(), gen_scalar(r, cfg));
             MVal::Obj(m)
+        }
+        9 => {
+            // a string in which every character needs an escape in JSON text: 255 / 256 / 257 / 65,536 escapes in one literal
+            let n = *r.pick(&[255usize, 256, 257, 300, 512, 65_536]);
+            MVal::Str(r.pick(&["\n", "\"", "\\", "\u{1}", "é"]).repeat(n))
         }
         6 => {
             // the same item 65,535 / 65,536 / 65,537 times: where a 16-bit occurrence count first goes wrong
@@ -248,6 +253,11 @@ pub fn gen_value_at(r: &mut Rng, cfg: &GenCfg, depth: usize) -> MVal {
 
 /// A whole document. `root_container_pct` biases the root towards containers.
 pub fn gen_doc(r: &mut Rng, cfg: &GenCfg, root_container_pct: u64) -> MVal {
+    // one long document in forty is narrow and 20-100 levels deep
+    if cfg.long && r.chance(1, 40) {
+        let d = r.urange(20, 100);
+        return gen_deep_narrow(r, d);
+    }
     // at most one size-boundary value per document, at the root or one level down
     if cfg.long && r.chance(1, 25) {
         let b = gen_boundary_value(r, cfg);
@@ -308,7 +318,11 @@ pub fn case_variant(r: &mut Rng, k: &str) -> String {
 /// Decoders that do work per level (or worse) only show it on shapes like this.
 pub fn gen_deep_narrow(r: &mut Rng, depth: usize) -> MVal {
     let cfg = GenCfg::small();
-    let mut v = gen_scalar(r, &cfg);
+    // the bottom is an object with a null member next to a real one, so that per-level editing (strip_nulls) has work to do
+    let mut bottom = BTreeMap::new();
+    bottom.insert("a".to_string(), MVal::Null);
+    bottom.insert("b".to_string(), gen_scalar(r, &cfg));
+    let mut v = if r.chance(1, 2) { MVal::Obj(bottom) } else { gen_scalar(r, &cfg) };
     for _ in 0..depth {
         v = if r.chance(1, 2) {
             let mut xs = vec![v];
